@@ -70,7 +70,7 @@ func (t *Total) Validate() error {
 // Validate ensures the rate totals of the category look correct.
 func (ct *CategoryTotal) Validate() error {
 	return validation.ValidateStruct(ct,
-		validation.Field(&ct.Code),
+		validation.Field(&ct.Code, validation.Required),
 		validation.Field(&ct.Rates),
 	)
 }
